@@ -205,7 +205,7 @@ func VerifC11_RoundTripJoin() {
 	repr := []error{ErrInvalid, ErrNotFound, ErrLocked, ErrTimeout, ErrCancelled, ErrInvalidDestination}
 	for i := 0; i < n; i++ {
 		var kind error
-		if i == 0 || verif.Tier() > 0 {
+		if i == 0 || (i == 1 && verif.Tier() > 0) { // (30 x 30 x 30 kinds x messages is beyond the wall limit: the third kind is a representative one)
 			kind = vKinds[verif.Choice("kind", len(vKinds))]
 		} else {
 			kind = repr[verif.Choice("kind", len(repr))]
